@@ -44,10 +44,18 @@ mod verif_replay_c15b {
     fn text_of(bytes: &[u8]) -> String {
         bytes.iter().map(|b| *b as char).collect()
     }
-    fn pct(s: &str) -> String {
+    /// percent-encode once; characters that may stand for themselves in a query / form value are sent
+    /// raw (so that code which tampers with raw '/', whitespace, ... before the parser is exposed);
+    /// `raw_ws`: a form body may also carry raw whitespace, a request target may not
+    fn pct(s: &str, raw_ws: bool) -> String {
         let mut out = String::new();
         for b in s.as_bytes() {
-            out.push_str(&format!("%{b:02X}"));
+            let c = *b as char;
+            if c.is_ascii_alphanumeric() || "-._~/:@!$'()*,;?".contains(c) || (raw_ws && matches!(c, ' ' | '\n' | '\r' | '\t')) {
+                out.push(c);
+            } else {
+                out.push_str(&format!("%{b:02X}"));
+            }
         }
         out
     }
@@ -92,7 +100,7 @@ mod verif_replay_c15b {
                     // a complete JSON value followed by characters that are not whitespace
                     if trailing { format!("{d}{{\"k\":\"other\"}}") } else { d }
                 } else {
-                    format!("k={}", pct(&text))
+                    format!("k={}", pct(&text, true))
                 };
                 let head = RequestHead { method: http::Method::POST, target: "/".parse().unwrap(), version: http::Version::HTTP_11, headers };
                 let body = BufferedBody { bytes: bytes::Bytes::from(doc.clone().into_bytes()) };
@@ -151,7 +159,7 @@ mod verif_replay_c15b {
                 let target = match &bytes {
                     None => "/p".to_string(),
                     Some(_) if fails => "/p?q=1".to_string(),
-                    Some(_) => format!("/p?k={}", pct(&text)),
+                    Some(_) => format!("/p?k={}", pct(&text, false)),
                 };
                 let head = RequestHead { method: http::Method::GET, target: target.parse().unwrap(), version: http::Version::HTTP_11, headers };
                 if bytes.is_none() {
